@@ -42,7 +42,7 @@ PRIMS = {
     "Sphere": (LIB, "sqrt((x-center_x)**2 + (y-center_y)**2 + (z-center_z)**2) - radius"),
     "Rectangle": (LIB, "Max(lower_x - x, x - upper_x, lower_y - y, y - upper_y)"),
     "Box": (LIB, "Max(lower_x - x, x - upper_x, lower_y - y, y - upper_y, lower_z - z, z - upper_z)"),
-    "Plane": (TYPES, "x*a_x + y*a_y + z*a_z - offset"),
+    "Plane": (TYPES, "x*axis_x + y*axis_y + z*axis_z - offset"),
     "Inverse": (LIB, "-shape"),
     "Difference": (LIB, "Max(shape, -cutout)"),
 }
@@ -69,7 +69,17 @@ def r_primitives(rule, root=None):
         t = A.ftxt(fn["body"]) + "".join(A.ftxt(f["body"]) for f in A.find(fn["body"], "Fn"))
         calls = [c["method"] for c in A.find(fn["body"], "MethodCall") if c["method"] in ("min", "max")]
         consts = [A.ftxt(c["args"][0]) for c in A.find(fn["body"], "Call") if (A.path_segs(c["func"]) or [])[-2:] == ["Tree", "constant"]]
-        if calls == [op] and consts == [inf] and "recurse(&s[..(n/2)])" in t and "recurse(&s[(n/2)..])" in t and "v.input.is_empty()" in t:
+        mm = [c for c in A.find(fn["body"], "MethodCall") if c["method"] in ("min", "max")]
+        both_rec = False
+        if len(mm) == 1:
+            sides = [A.strip(mm[0]["recv"]), A.strip(mm[0]["args"][0])] if mm[0]["args"] else []
+            inner = [f["name"] for f in A.find(fn["body"], "Fn")]
+            both_rec = len(sides) == 2 and all(x.get("k") == "Call" and (A.path_segs(x["func"]) or [None])[-1] in inner for x in sides)
+            halves = [str(A.ftxt(x["args"][0])) for x in sides if x.get("k") == "Call" and x["args"]]
+        split_ok = both_rec and (sorted(halves) == sorted(["&s[..(n/2)]", "&s[(n/2)..]"]) or ("split_at(" in t and len(set(halves)) == 2))
+        const_nodes = [c for c in A.find(fn["body"], "Call") if (A.path_segs(c["func"]) or [])[-2:] == ["Tree", "constant"]]
+        guarded = bool(const_nodes) and any("v.input.is_empty()" in c_ for c_ in (A.enclosing_conds(fn["body"], const_nodes[0]) or []))
+        if calls == [op] and consts == [inf] and split_ok and guarded:
             rule.ok("%s folds its inputs with %s; empty input is %s" % (ty, op, inf), file=LIB, line=fn["ln"])
         else:
             rule.bad(ty, "%s must fold all inputs with `%s` (found %s) and return %s for no inputs (found %s)" % (ty, op, calls, inf, consts), A.where(LIB, fn))
@@ -107,8 +117,8 @@ def r_transforms(rule, root=None):
     if len(remap) != 1:
         rule.bad("Reflect|shape", "Reflect must remap_xyz once", A.where(LIB, fn))
     else:
-        d = "(a_x*x + a_y*y + a_z*z - plane_offset)"
-        want = ["x - 2*%s*a_x" % d, "y - 2*%s*a_y" % d, "z - 2*%s*a_z" % d]
+        d = "(plane_axis_x*x + plane_axis_y*y + plane_axis_z*z - plane_offset)"
+        want = ["x - 2*%s*plane_axis_x" % d, "y - 2*%s*plane_axis_y" % d, "z - 2*%s*plane_axis_z" % d]
         _cmp_args(rule, "Reflect", fn, remap[0]["args"], want, env, "mirror image p - 2(a.p - offset)a")
     # ReflectX/Y/Z, RotateX/Y/Z: namesake axis, fields passed through
     for ax in "XYZ":
